@@ -947,3 +947,128 @@ Proof.
   - apply (Phi_nonneg Phi HPhi Hlim).
 Qed.
 End HeadsNonneg.
+
+(* ---------------- plumbing: roles of the predictors, mixed-resource batch predict (no reals) ---- *)
+Close Scope R_scope.
+From Coq Require Import Permutation Bool.
+Section PlumbingProofs.
+Context {Row Out Pred : Type}.
+
+Lemma roles_perm (d d' : list (nat * Pred)) (active : nat) :
+  length d = 2 -> NoDup (dkeys d) -> Permutation d d' ->
+  head_roles d' active = head_roles d active.
+Proof.
+  intros Hlen Hnd Hp. destruct d as [|[k1 v1] [|[k2 v2] [|]]]; try discriminate.
+  apply Permutation_length_2_inv in Hp. destruct Hp as [->| ->]; [reflexivity|].
+  assert (Hne : k1 <> k2) by (inversion Hnd as [|? ? Hin _]; intro; subst; apply Hin; now left).
+  unfold head_roles, secondary, output_names, dkeys. cbn [map fst filter dlookup].
+  repeat match goal with
+         | |- context [Nat.eqb ?a ?b] => destruct (Nat.eqb_spec a b); subst; cbn [negb filter dlookup]; try congruence
+         end; reflexivity.
+Qed.
+
+(* grouping consecutive equal resources and predicting group-wise with row-wise per-resource predictors is
+   the row-wise prediction of the list *)
+Lemma group_runs_flat (sp : nat -> list Row -> list Out) (p : nat -> Row -> Out) :
+  (forall r l, sp r l = map (p r) l) ->
+  forall l, flat_map (fun g => sp (fst g) (snd g)) (group_runs l) = map (fun rx => p (fst rx) (snd rx)) l.
+Proof.
+  intros Hsp. induction l as [|[r x] t IH]; [reflexivity|].
+  cbn [group_runs map fst snd]. rewrite <- IH.
+  destruct (group_runs t) as [|[r' xs] g] eqn:E.
+  - cbn. rewrite Hsp. cbn. reflexivity.
+  - destruct (Nat.eqb_spec r r') as [->|Hne]; cbn; rewrite !Hsp; cbn; reflexivity.
+Qed.
+
+Lemma set_nth_nat_length l i v : length (set_nth_nat l i v) = length l.
+Proof. revert i; induction l as [|y l IH]; intros [|i]; simpl; auto. Qed.
+
+Lemma nth_set_nth_nat l i v j : i < length l ->
+  nth j (set_nth_nat l i v) 0 = if Nat.eqb j i then v else nth j l 0.
+Proof.
+  revert i j; induction l as [|y l IH]; intros [|i] [|j] H; simpl in *; try lia; try reflexivity.
+  apply IH. lia.
+Qed.
+
+Lemma fold_set_length (ps : list (nat * nat)) rev :
+  length (fold_left (fun rev p => set_nth_nat rev (fst p) (snd p)) ps rev) = length rev.
+Proof. revert rev; induction ps as [|p ps IH]; intros rev; simpl; [reflexivity|]. rewrite IH. apply set_nth_nat_length. Qed.
+
+Lemma fold_set_other (ps : list (nat * nat)) rev a :
+  ~ In a (map fst ps) ->
+  nth a (fold_left (fun rev p => set_nth_nat rev (fst p) (snd p)) ps rev) 0 = nth a rev 0.
+Proof.
+  revert rev; induction ps as [|[k v] ps IH]; intros rev Hn; simpl; [reflexivity|].
+  rewrite IH by (intro; apply Hn; now right).
+  destruct (Nat.lt_ge_cases k (length rev)) as [Hk|Hk].
+  - rewrite nth_set_nth_nat by exact Hk. destruct (Nat.eqb_spec a k) as [->|]; [exfalso; apply Hn; now left | reflexivity].
+  - assert (E : set_nth_nat rev k v = rev).
+    { clear -Hk. revert k Hk; induction rev as [|y rev IH]; intros [|k] Hk; simpl in *; try reflexivity; try lia. now rewrite IH by lia. }
+    now rewrite E.
+Qed.
+
+Lemma fold_set_spec (ps : list (nat * nat)) rev a i :
+  NoDup (map fst ps) -> In (a, i) ps -> a < length rev ->
+  nth a (fold_left (fun rev p => set_nth_nat rev (fst p) (snd p)) ps rev) 0 = i.
+Proof.
+  revert rev; induction ps as [|[k v] ps IH]; intros rev Hnd Hin Ha; [inversion Hin|].
+  simpl in *. inversion Hnd as [|? ? Hk Hnd']; subst. destruct Hin as [E|Hin].
+  - inversion E; subst. rewrite fold_set_other by exact Hk. rewrite nth_set_nth_nat by exact Ha. now rewrite Nat.eqb_refl.
+  - apply IH; [exact Hnd' | exact Hin | now rewrite set_nth_nat_length].
+Qed.
+
+Lemma map_fst_combine_eq {A B} (a : list A) (b : list B) : length a = length b -> map fst (combine a b) = a.
+Proof. revert b; induction a as [|x a IH]; intros [|y b] H; simpl in *; try discriminate; try reflexivity. f_equal. apply IH. lia. Qed.
+
+(* reverse_ind is the inverse permutation: ind[reverse_ind[k]] = k *)
+Lemma reverse_ind_spec (ind : list nat) :
+  Permutation (seq 0 (length ind)) ind ->
+  length (reverse_ind ind) = length ind /\
+  forall k, k < length ind -> nth k (reverse_ind ind) 0 < length ind /\ nth (nth k (reverse_ind ind) 0) ind 0 = k.
+Proof.
+  intros Hp. unfold reverse_ind. split; [rewrite fold_set_length; apply repeat_length|].
+  intros k Hk.
+  assert (Hin : In k ind) by (apply (Permutation_in k Hp), in_seq; lia).
+  destruct (In_nth ind k 0 Hin) as [m [Hm Hnth]].
+  assert (Hnd : NoDup ind) by (apply (Permutation_NoDup Hp), seq_NoDup).
+  assert (E : nth k (fold_left (fun rev p => set_nth_nat rev (fst p) (snd p)) (combine ind (seq 0 (length ind)))
+                      (repeat 0 (length ind))) 0 = m).
+  { apply fold_set_spec.
+    - rewrite map_fst_combine_eq by (now rewrite seq_length). exact Hnd.
+    - rewrite <- Hnth. replace m with (nth m (seq 0 (length ind)) 0) at 2 by (rewrite seq_nth; lia).
+      rewrite <- combine_nth by (now rewrite seq_length). apply nth_In. rewrite combine_length, seq_length. lia.
+    - now rewrite repeat_length. }
+  rewrite E. split; [exact Hm | exact Hnth].
+Qed.
+
+Lemma nth_map_lt {A B} (f : A -> B) l k d d' : k < length l -> nth k (map f l) d = f (nth k l d').
+Proof. revert k; induction l as [|y l IH]; intros [|k] H; simpl in *; try lia; auto. apply IH; lia. Qed.
+
+(* predict on a batch of rows with mixed resources = row-wise predict, for every permutation the sort returns *)
+Theorem mixed_predict_rowwise (sp : nat -> list Row -> list Out) (p : nat -> Row -> Out)
+        (ind : list nat) (rows : list (nat * Row)) (d0 : nat * Row) (o0 : Out) :
+  (forall r l, sp r l = map (p r) l) -> length ind = length rows -> Permutation (seq 0 (length rows)) ind ->
+  mixed_predict sp ind rows d0 o0 = map (fun rx => p (fst rx) (snd rx)) rows.
+Proof.
+  intros Hsp Hlen Hp. unfold mixed_predict. rewrite (group_runs_flat sp p Hsp).
+  rewrite <- Hlen in Hp. destruct (reverse_ind_spec ind Hp) as [Hl Hk].
+  apply nth_ext with (d := o0) (d' := o0).
+  - now rewrite !map_length, Hl.
+  - intros k Hkl. rewrite map_length, Hl in Hkl. destruct (Hk k Hkl) as [Hb He].
+    rewrite (nth_map_lt _ _ k o0 0) by (now rewrite Hl).
+    rewrite map_map. rewrite (nth_map_lt _ _ _ o0 0) by exact Hb. rewrite He.
+    rewrite (nth_map_lt _ _ k o0 d0) by lia. reflexivity.
+Qed.
+End PlumbingProofs.
+
+Lemma indep_predict_rowwise {Row Out : Type} (sp : nat -> list Row -> list Out) (p : nat -> Row -> Out)
+        (ind : list nat) (rows : list (nat * Row)) (d0 : nat * Row) (o0 : Out) :
+  (forall r l, sp r l = map (p r) l) -> length ind = length rows -> Permutation (seq 0 (length rows)) ind ->
+  indep_predict sp ind rows d0 o0 = map (fun rx => p (fst rx) (snd rx)) rows.
+Proof.
+  intros Hsp Hlen Hp. unfold indep_predict. destruct (all_same (map fst rows)) eqn:E.
+  - destruct rows as [|[r x] t]; [reflexivity|]. rewrite Hsp. cbn [map fst snd all_same] in *.
+    f_equal. rewrite map_map. apply map_ext_in. intros [r' x'] Hin. cbn.
+    rewrite forallb_forall in E. specialize (E r' (in_map fst _ _ Hin)). apply Nat.eqb_eq in E. now subst.
+  - now apply mixed_predict_rowwise.
+Qed.
